@@ -6,4 +6,8 @@ if ! /venv/bin/python -c "import hypothesis" 2>/dev/null; then
   /venv/bin/pip install --no-index --find-links /opt/veriftools/wheels hypothesis
 fi
 /venv/bin/python -c "import hypothesis, ply; print('hypothesis', hypothesis.__version__, 'ply', ply.__version__)"
+# atheris (coverage-guided part of C12) goes into .deps, beside the repository's packages
+if [ ! -d .deps/atheris ]; then
+  /venv/bin/pip install --no-index --find-links /opt/veriftools/wheels --target .deps atheris >/dev/null 2>&1 || echo "atheris not installable: C12 skips its coverage-guided shards"
+fi
 mkdir -p evidence replays
